@@ -13,7 +13,7 @@ CLAIMED = {
  "C04": ("configuration differential (engine vs engine, refsql as third opinion): one generated row set registered as memory (1 batch / random batches) and as Parquet in several generated layouts, with morsel execution on/off and with the verif-hooks threshold overrides (forced streaming scan, no prescan, forced disjoint aggregation)",
          "Filtered scans, global and grouped aggregates (nullable / Int32 / Date32 / dense and sparse keys), self-joins and repeated references, joins over streaming probes, sort/limit: every layout and path must return the same answer, and an error on one layout only is a violation. Path marks (verif-hooks) measure which scan/aggregate path ran. Exploration.",
          "Forced-path variants run single-threaded because the overrides are process-global atomics.", "5 C04"),
- "C07": ("configuration differential: batch layouts in-process (repeated runs), thread counts in sub-process workers (RAYON_NUM_THREADS 1/2/3/8), and a partition walk executing every declared output partition of every physical operator",
+ "C07": ("configuration differential: batch layouts in-process (repeated runs), thread counts in sub-process workers (RAYON_NUM_THREADS 1/2/3/8; layouts of up to 41 batches, mixed MIN/MAX/COUNT(DISTINCT) aggregate lists, mostly-NULL columns), and a partition walk executing every declared output partition of every physical operator",
          "The same statement over the same rows must answer the same for one batch vs random batch layouts (incl. >=1000 rows in >=2 batches), under every thread count, and on repetition; every partition 0..output_partitions() of every operator must execute and partition output_partitions() must be refused. Exploration; interleavings are varied by repetition only.",
          "rayon's pool size is per process, hence sub-process workers.", "5 C07"),
  "C08": ("configuration differential: each statement under log-uniform memory limits from 16 B to 64 MB (plus limits placed near the data size) vs the default budget",
@@ -23,7 +23,7 @@ CLAIMED = {
  "C09": ("engine-vs-engine differential over generated in-process clusters (1-8 participants, a harness FragmentTransport that calls the worker entry on peer contexts and IPC-encodes replies): forced-distributed execution vs single-node ctx.sql",
          "1-3 multi-file Parquet tables (incl. empty tables and tables with fewer splits than nodes), self at any position, peers on the same files or a byte-identical copy; a scatter profile (Concat / TwoPhase / TopN incl. AVG over unequal shards and TopN with OFFSET) and a gather profile (full grammar + windows): same multiset, ORDER BY judged against the single node's tie groups, NotImplemented refusals accepted, approximations not. Exploration.",
          "refsql is printed as third opinion only; a gather result equal to one node over in-memory copies of the full tables is classified as a local layout dependence, not a distribution fault.", "5 C09"),
- "C10": ("fault enumeration at the FragmentTransport seam: the fault-free run records every remote reply, then every exchange is combined with every fault kind (alone and in generated pairs)",
+ "C10": ("fault enumeration at the FragmentTransport seam: the fault-free run records every remote reply, then every exchange is combined with every fault kind (alone and in generated pairs); plus divergent worker copies (remote participants mount a copy written from other rows: differential against the identical-copies answer)",
          "Per generated table set and 2-4-node cluster, one scatter and one forced-gather statement; faults: transport error, HTTP 500/503, empty body, truncation at every IPC message boundary / 1-7 bytes into the next prefix / the metadata-body seam / sampled interior offsets, sampled single-byte corruption, dropped end-of-stream marker, x-qe-rows +-1 or missing, digest altered in flight. The query must return Err or exactly the fault-free answer ('masked'); any other Ok is a violation. ~2,900 fault instances per quick run.",
          "Faults are injected at the transport seam (status, x-qe-rows, body byte for byte); the socket-level proxy variant is not built.", "5 C10"),
  "C45": ("proptest over gather-path statements on 2-4-table catalogs (quoted mixed-case names; tables that appear only inside subqueries): a walker over the bound plan incl. subquery expressions vs GatherPlan.tables, then execute_gathered vs ctx.sql",
@@ -70,7 +70,7 @@ CLAIMED = {
  "C19": ("stateful proptest: write / query / rewrite histories over one path with controlled length and mtime (virtual clock via set_modified), executed in sub-process workers under QE_IPC_CACHE=0, unset and 1; model = last written content",
          "Histories with same-length rewrites (padded footer key/value), preserved / same-second / backwards mtimes, in-place or rename writes, re-registration and external sidecar builds; every query's answer must equal the last written content in all three cache configurations (an error after a rewrite counts as not reading the new content). Exploration.",
          "QE_IPC_CACHE is read once per process, hence sub-process workers; quick tier is dominated by process spawns.", "5 C19"),
- "C20": ("configuration differential across sub-process workers (sidecars off / cold unset / fresh build / reused / unset after build) plus repeated multi-process build/read races on cold directories, with a post-race completeness check",
+ "C20": ("configuration differential across sub-process workers (sidecars off / cold unset / fresh build / reused / unset after build) (table shapes include single row groups of k*8192+r rows around the sidecar re-slicing unit) plus repeated multi-process build/read races on cold directories, with a post-race completeness check",
          "Tables with dictionary-eligible, all-NULL and wide string columns over several row groups: every answer under any sidecar configuration equals the QE_IPC_CACHE=0 answer and every built sidecar equals the Parquet row groups cell for cell; in races (1-8 builder and 1-4 looping reader processes released together) every Ok answer equals the reference and the sidecar directory is complete afterwards. Exploration by repeated-race sampling: the harness does not own the OS schedule between processes (weakest level in this suite; stated in DESIGN 6).",
          "Reader/builder errors during a race are recorded as labels, only differing answers and incomplete sidecars are violations.", "5 C20"),
 
@@ -80,10 +80,10 @@ CLAIMED = {
  "C21": ("proptest with a focused aggregate generator; each statement is run through six engine configurations (memory 1 batch / many batches, spilling memory limit, Parquet morsel / forced-disjoint / morsel-off) and every answer is compared with refsql",
          "Grouped, global and LEFT-JOINed COUNT(*)/COUNT/SUM/AVG/MIN/MAX/COUNT(DISTINCT) over columns with 0/30/70/100 % NULLs, NULL group keys, never-true filters: NULL inputs ignored, SUM/AVG/MIN/MAX of no non-NULL input NULL and COUNT 0, NULL keys one group, a global aggregate over no rows exactly one row - on every path. Path marks (verif-hooks) measure which aggregation path ran. Exploration.",
          "Configurations that set a process-global hook run under an exclusive lock.", "5 C21"),
- "C22": ("proptest with a focused join generator (2- and 3-relation shapes, all seven join kinds, 1-3 equi-keys over BIGINT/INTEGER/VARCHAR/DATE incl. mixed widths, residual ON predicates, NULL keys, duplicates, empty sides); refsql nested-loop oracle across memory / spill / Parquet / forced-streaming configurations plus the swapped statement",
+ "C22": ("proptest with a focused join generator (2- and 3-relation shapes, all seven join kinds, 1-3 equi-keys over BIGINT/INTEGER/VARCHAR/DATE incl. mixed widths, residual ON predicates, NULL keys, duplicates, empty sides; plus many-batch sides of 34-64 tiny batches); refsql nested-loop oracle across memory / spill / Parquet / forced-streaming configurations plus the swapped statement",
          "Inner, left, right, full, semi, anti, cross and comma joins must return exactly the SQL result: NULL keys never match, unmatched rows NULL-extended, residual ON filters candidate pairs before match tracking, independent of build side, runtime filters and registration. Exploration.",
          "PARALLEL_BUILD_THRESHOLD is not crossed in the quick tier.", "5 C22"),
- "C25": ("proptest with a focused ORDER BY/LIMIT/OFFSET generator; validity predicate over refsql's sorted multiset with tie groups; each case run with default memory and with a really-spilling memory limit; LIMIT inside derived tables with a total order",
+ "C25": ("proptest with a focused ORDER BY/LIMIT/OFFSET generator; validity predicate over refsql's sorted multiset with tie groups; each case run with default memory and with a really-spilling memory limit; LIMIT inside derived tables with a total order; plus 10k-40k-row sorts spilled into runs longer than the 8192-row merge buffer, judged by order + per-position tie-group membership",
          "1-4 sort keys (alias, ordinal, non-selected column, expression) x ASC/DESC x NULLS FIRST/LAST/default over nullable int/float/string/date/bool columns with heavy ties, every LIMIT/OFFSET combination, 0-30 or 1000+ rows in 0-10 batches: output ordered as stated, NULLs placed as stated (default last), LIMIT n OFFSET m = rows m+1..m+n up to ties, for full sort, fused top-k and spilled sort. Exploration.",
          "Runs above 8192 rows per spill run are not exercised in the quick tier.", "5 C25"),
 
@@ -106,11 +106,11 @@ CLAIMED = {
          "VALUES lists of 1-8 rows x 1-5 columns (integer, double, mixed, string with quotes / 'NULL' / non-ASCII, boolean, all-NULL; NULL in the first row) must produce exactly their rows in every use. Exploration.",
          "Column names are always defined by the statement itself.", "5 C44"),
 
- "C29": ("generated / damaged / hostile / harvested SQL executed in crash-isolating worker sub-processes with a panic hook and a two-stage watchdog",
+ "C29": ("generated / damaged / hostile / harvested SQL, generated function calls over multi-byte text and edge numbers, and an exhaustive grid of every function name x argument tuples (83 504 statements), executed in crash-isolating worker sub-processes with a panic hook and a two-stage watchdog",
          "Every statement (grammar-generated, token-damaged, deeply nested or oversized, and all 800 SQL strings harvested from the repository plus TPC-H Q1-22, plain and damaged) runs in a long-lived worker process against generated tables plus TPC-H SF 0.001; the oracle is: an Ok or Err reply - never a panic (reported with message and location), never a dead worker (signal), never silence (10 s, then 90 s alone in a fresh process). Exploration; the whole harvested corpus is replayed exhaustively on every run.",
          "Hangs are judged by wall clock only after a 90 s solo confirmation on tiny tables; panics that only exist in overflow-checked builds are still panics of the build the repository tests.", "5 C29"),
 
- "C03": ("engine-vs-engine differential with refsql as third opinion: production optimizer (statistics-aware, tables registered as memory and as Parquet) vs the unoptimized bound plan, plus every rule alone and every prefix of the production order; disagreements are narrowed to the first rule that changes the answer",
+ "C03": ("engine-vs-engine differential with refsql as third opinion: production optimizer (statistics-aware, tables registered as memory and as Parquet) vs the unoptimized bound plan, plus every rule alone and every prefix of the production order; a third generator targets the key-packing rules (per-column domain widths); disagreements are narrowed to the first rule that changes the answer",
          "Generators built to make the statistics rules fire (null-free duplicated keys with range >= rows - the ndv_est uniqueness trap, also through DATE keys and join keys; two-integer group/join keys straddling 2^31/2^32 and negatives; aggregates above duplicating joins; OR-of-conjunctions; HAVING totals; EXISTS/IN below joins; shadowing derived columns; sort+limit over reduced aggregates): optimized answer must equal the unoptimized one. Exploration.",
          "Quick tier runs single rules and prefixes on the Parquet (statistics) side only.", "5 C03"),
  "C30": ("proptest over sqlgen statements plus hand-written shapes (windows, grouping sets, VALUES, star joins, alias collisions, unaliased outputs, set operations) on memory and Parquet: reported schemas vs every returned batch",
@@ -119,7 +119,7 @@ CLAIMED = {
  "C31": ("proptest over bound plans of generated statements, with and without statistics: every rule alone, every prefix and the production pipeline must return Ok, keep output names/types, resolve every column reference against the children schemas (harness walker over the public plan/expr enums), and still lower and execute",
          "The harness's copy of the production rule list is compared with Optimizer::new() on every case. Exploration; non-trivial = the rule changed the plan.",
          "The column walker is calibrated on the bound plan (the engine's own run-time lookup rule).", "5 C31"),
- "C32": ("proptest over connected inner-join graphs of 2-7 relations (chains, stars, cycles, cliques, composite edges, non-equi extras) written as comma joins, explicit joins or mixed, with and without statistics: validity predicate on the optimized plan + answer equality",
+ "C32": ("proptest over connected inner-join graphs of 2-7 relations (chains, stars, cycles, cliques, composite edges, non-equi extras, join keys wrapped in CAST / neutral arithmetic / unary minus) written as comma joins, explicit joins or mixed, with and without statistics: validity predicate on the optimized plan + answer equality",
          "No cross join / empty-ON inner join, every base relation exactly once, column equivalence classes of the equality predicates equal the original's (union-find; packed key pairs count as their two equalities), every non-equality predicate still present, every join's ON spans both inputs; and the answer equals the unoptimized plan's. Exploration.",
          "Implied equalities are accepted, as the property allows.", "5 C32"),
  "C34": ("generated statements and tickets against freshly spawned 1-3-node in-process clusters on loopback: Flight (GetFlightInfo -> DoGet, GetSchema) vs POST /sql?format=arrow",
